@@ -2,5 +2,6 @@
 #define C13_MATH_H
 double sqrt(double); double exp(double); double log(double); double sin(double);
 double cos(double); double sinh(double); double cosh(double); double fabs(double);
-double pow(double, double); double floor(double); double ceil(double);
+double pow(double, double); double expm1(double); double log1p(double); double tanh(double);
+double atan2(double, double); double round(double); double floor(double); double ceil(double);
 #endif
